@@ -829,6 +829,7 @@ def generate(rng, max_ops=12):
     nops = rng.range(4, max_ops)
     hist = []
     objs = []
+    made = []       # (variable, factory) pairs: variables that hold a factory product
     for _ in range(nops):
         fns = g.of_type(top, "fn1")
         lists = g.of_type(top, "fnlist")
@@ -840,6 +841,8 @@ def generate(rng, max_ops=12):
             choices.append(("assign", 4))
         if factories:
             choices.append(("make", 5))
+            if made:
+                choices.append(("remake", 3))
         if classes:
             choices.append(("new", 2))
         if objs:
@@ -874,6 +877,11 @@ def generate(rng, max_ops=12):
             n = g.name("h" if ret == "fn1" else "l")
             prog.append(["decl", n, "int", ["call", fn, [["i", rng.range(0, 9)]]]])
             top.own[n] = ret
+            made.append((n, fn))
+        elif k == "remake":
+            # an existing variable is re-assigned a product of another execution of the same factory
+            n, fn = rng.choice(made)
+            prog.append(["set", n, ["call", fn, [["i", rng.range(0, 9)]]]])
         elif k == "new":
             cn, ret = rng.choice(classes)
             n = g.name("ob")
